@@ -231,6 +231,11 @@ def main(tier, seed):
     longbase = ops.build(eng.local_ctx(), dict(c06.BASE), [ops.create("d", ["md5"])])
     inits.append(("c06-long", longbase, dict(alpha="c06", cmds=0, edits=0, max_cmds=11 if q else 13, max_edits=0, long=True)))
     inits.append(("unicode-names", dict(UNI), dict(alpha="c19", cmds=0, max_cmds=3 if q else 4)))
+    # histories as another implementation may have written them (dates with 'Z' / fractions, optional attributes left out)
+    from mc import foreign
+    fbase = ops.build(eng.local_ctx(), dict(c06.BASE), [ops.create("", ["md5"]), ops.create("", ["xxh64", "md5"])])
+    for variant in foreign.VARIANTS:
+        inits.append(("foreign-" + variant, foreign.rewrite(fbase, variant), dict(alpha="c06", cmds=0, edits=0, max_cmds=1, max_edits=0)))
     tot = {"states": 0, "transitions": 0}
     runs = []
     for name, tree, meta in inits:
